@@ -1,5 +1,5 @@
 (* Proofs for C19: timing adjustment and concurrent-caption merging. *)
-From Coq Require Import List ZArith QArith Bool Lia.
+From Coq Require Import List ZArith QArith Qabs Bool Lia.
 From PV Require Import lib.Sx lib.Result model.Base spec.SpecBase.
 Import ListNotations.
 
@@ -34,9 +34,6 @@ Proof.
   - apply Qle_bool_iff in Ea. rewrite H in Ea. apply Qle_bool_iff in Ea. congruence.
   - apply Qle_bool_iff in Eb. rewrite <- H in Eb. apply Qle_bool_iff in Eb. congruence.
 Qed.
-
-Definition cap_equiv (a b : caption) : Prop :=
-  c_start a == c_start b /\ c_end a == c_end b /\ c_nodes a = c_nodes b.
 
 Lemma adjust_meets_spec : forall skew off caps,
   Forall2 cap_equiv (adjust_lang skew off caps) (spec_adjust_lang skew off caps).
@@ -247,12 +244,6 @@ Qed.
 
 (* ---- idempotence ------------------------------------------------------------ *)
 
-Fixpoint adjacent_distinct (rs : list (caption * list caption)) : Prop :=
-  match rs with
-  | r1 :: ((r2 :: _) as t) => span_eqb (fst r1) (fst r2) = false /\ adjacent_distinct t
-  | _ => True
-  end.
-
 Lemma runs_adjacent_distinct : forall caps, adjacent_distinct (runs caps).
 Proof.
   induction caps as [|c t IH]; [exact I|].
@@ -364,4 +355,176 @@ Proof.
         apply (IH (d, ds) x); [left; reflexivity|exact Hx].
       * apply (IH r x); [right; exact Hr|exact Hx].
     + destruct Hr as [<-|Hr]; [destruct Hx|]. apply (IH r x); assumption.
+Qed.
+
+(* ======================= wave 3: the model meets the decidable oracle ======================= *)
+
+(* ---- several languages: adjust -------------------------------------------------------------- *)
+Theorem adjust_langs_meet_spec : forall skew off langs,
+  Forall2 (Forall2 cap_equiv) (adjust skew off langs) (map (spec_adjust_lang skew off) langs).
+Proof.
+  intros skew off langs. unfold adjust. induction langs as [|l t IH]; cbn [map]; constructor.
+  - apply adjust_meets_spec.
+  - exact IH.
+Qed.
+
+Lemma q_close_of_eq : forall a b, a == b -> q_close a b = true.
+Proof.
+  intros a b H. unfold q_close. apply Qle_bool_iff.
+  assert (E : a - b == 0) by (rewrite H; ring).
+  rewrite E. cbn. discriminate.
+Qed.
+
+Lemma zlist_eqb_refl : forall l, zlist_eqb l l = true.
+Proof. induction l as [|x t IH]; cbn; [reflexivity|]. rewrite Z.eqb_refl. exact IH. Qed.
+
+Lemma cap_close_retime : forall skew off c, cap_close (spec_retime skew off c) (retime skew off c) = true.
+Proof.
+  intros skew off c. destruct (retime_affine skew off c) as [Hs [He Hn]].
+  unfold cap_close. cbn [spec_retime c_start c_end c_nodes].
+  rewrite (q_close_of_eq _ _ (Qeq_sym _ _ Hs)), (q_close_of_eq _ _ (Qeq_sym _ _ He)), Hn.
+  apply zlist_eqb_refl.
+Qed.
+
+(* one language: the exact model is accepted by the tolerant matcher, whatever the optional captions are *)
+Lemma match_adjust_model : forall skew off caps,
+  match_adjust skew off caps (adjust_lang skew off caps) = true.
+Proof.
+  intros skew off caps. rewrite adjust_lang_filter_map.
+  induction caps as [|c t IH]; [reflexivity|].
+  cbn [map filter match_adjust].
+  destruct (retime_affine skew off c) as [Hs _].
+  assert (Hsign : Qle_bool 0 (c_start (spec_retime skew off c)) = Qle_bool 0 (c_start (retime skew off c))).
+  { cbn [spec_retime c_start]. symmetry. apply Qle_bool_comp. exact Hs. }
+  rewrite Hsign.
+  destruct (Qle_bool 0 (c_start (retime skew off c))) eqn:Ek.
+  - rewrite cap_close_retime, IH. cbn [andb orb].
+    destruct (optional skew off c); reflexivity.
+  - destruct (optional skew off c); [|exact IH]. rewrite IH. apply orb_true_r.
+Qed.
+
+Theorem adjust_ok : forall skew off langs, ok_adjust skew off langs (adjust skew off langs) = true.
+Proof.
+  intros skew off langs. unfold ok_adjust, adjust.
+  induction langs as [|l t IH]; [reflexivity|].
+  cbn [map list_rel]. rewrite match_adjust_model. exact IH.
+Qed.
+
+(* ---- several languages: merge --------------------------------------------------------------- *)
+Theorem merge_concurrent_spec : forall langs, forallb nodes_nonempty langs = true ->
+  merge_concurrent langs = Ok (map spec_merge_lang langs).
+Proof.
+  unfold merge_concurrent. induction langs as [|l t IH]; intros H; [reflexivity|].
+  cbn [forallb] in H. apply andb_true_iff in H. destruct H as [Hl Ht].
+  cbn [res_map map]. rewrite (merge_lang_spec l Hl). cbn [bind]. rewrite (IH Ht). reflexivity.
+Qed.
+
+Lemma langs_merge_nonempty : forall langs, forallb nodes_nonempty langs = true ->
+  forallb nodes_nonempty (map spec_merge_lang langs) = true.
+Proof.
+  induction langs as [|l t IH]; intros H; [reflexivity|].
+  cbn [forallb] in H. apply andb_true_iff in H. destruct H as [Hl Ht].
+  cbn [map forallb]. rewrite (spec_merge_nonempty l Hl). exact (IH Ht).
+Qed.
+
+Theorem merge_concurrent_twice : forall langs, forallb nodes_nonempty langs = true ->
+  (do m <- merge_concurrent langs; merge_concurrent m) = merge_concurrent langs.
+Proof.
+  intros langs H. rewrite (merge_concurrent_spec langs H). cbn [bind].
+  rewrite (merge_concurrent_spec _ (langs_merge_nonempty langs H)).
+  rewrite map_map. f_equal. apply map_ext. intros l. apply merge_idempotent.
+Qed.
+
+Lemma cap_exact_refl : forall c, cap_exact c c = true.
+Proof. intros c. unfold cap_exact. rewrite !Qeq_bool_refl, zlist_eqb_refl. reflexivity. Qed.
+
+Lemma list_rel_refl : forall A (r : A -> A -> bool), (forall x, r x x = true) -> forall l, list_rel r l l = true.
+Proof. intros A r Hr l. induction l as [|x t IH]; [reflexivity|]. cbn. rewrite Hr. exact IH. Qed.
+
+Lemma list_rel_map_l : forall A (r : A -> A -> bool) (f : A -> A), (forall x, r x x = true) ->
+  forall l, list_rel (fun i o => r (f i) o) l (map f l) = true.
+Proof. intros A r f Hr l. induction l as [|x t IH]; [reflexivity|]. cbn. rewrite Hr. exact IH. Qed.
+
+Theorem merge_ok : forall langs, forallb nodes_nonempty langs = true ->
+  ok_merge langs (merge_concurrent langs) (do m <- merge_concurrent langs; merge_concurrent m) = true.
+Proof.
+  intros langs H. rewrite (merge_concurrent_twice langs H), (merge_concurrent_spec langs H).
+  unfold ok_merge. apply andb_true_iff. split.
+  - apply (list_rel_map_l _ (list_rel cap_exact) spec_merge_lang).
+    intros l. apply list_rel_refl. exact cap_exact_refl.
+  - apply list_rel_refl. intros l. apply list_rel_refl. exact cap_exact_refl.
+Qed.
+
+(* ---- "leaves every other caption as it was", stated about merge_lang itself ------------------ *)
+Lemma runs_no_adjacent : forall caps, no_adjacent_equal caps = true -> runs caps = map (fun c => (c, [])) caps.
+Proof.
+  induction caps as [|a t IH]; intros H; [reflexivity|].
+  destruct t as [|b t']; [reflexivity|].
+  change (no_adjacent_equal (a :: b :: t')) with (negb (span_eqb a b) && no_adjacent_equal (b :: t')) in H.
+  apply andb_true_iff in H. destruct H as [Hab Ht]. apply negb_true_iff in Hab.
+  change (runs (a :: b :: t')) with
+    (match runs (b :: t') with
+     | (d, ds) :: rest => if span_eqb a d then (a, d :: ds) :: rest else (a, []) :: (d, ds) :: rest
+     | [] => [(a, [])] end).
+  rewrite (IH Ht). cbn [map]. rewrite Hab. reflexivity.
+Qed.
+
+Theorem merge_lang_identity : forall caps, nodes_nonempty caps = true -> no_adjacent_equal caps = true ->
+  merge_lang caps = Ok caps.
+Proof.
+  intros caps Hn Ha. rewrite (merge_lang_spec caps Hn). unfold spec_merge_lang.
+  rewrite (runs_no_adjacent caps Ha), map_map. f_equal.
+  induction caps as [|c t IH]; [reflexivity|]. cbn [map]. rewrite join_run_single. f_equal.
+  clear. induction t as [|d t IH]; [reflexivity|]. cbn [map]. rewrite join_run_single, IH. reflexivity.
+Qed.
+
+(* a singleton run is carried over unchanged, at its position *)
+Theorem merge_lang_keeps_singletons : forall caps c, nodes_nonempty caps = true -> In (c, []) (runs caps) ->
+  exists out, merge_lang caps = Ok out /\ In c out.
+Proof.
+  intros caps c Hn Hin. exists (spec_merge_lang caps). split; [apply merge_lang_spec; exact Hn|].
+  unfold spec_merge_lang. apply in_map_iff. exists (c, []). split; [apply join_run_single|exact Hin].
+Qed.
+
+(* ---- totality outside the domain: the only exception is Caption()'s refusal of an empty node list ---- *)
+Lemma merge_caps_err : forall c cs e, merge_caps (c :: cs) = Err e -> e = ENodeListEmpty.
+Proof.
+  intros c cs e H. unfold merge_caps in H. destruct (merge_nodes (c :: cs)); [|discriminate].
+  injection H as <-. reflexivity.
+Qed.
+
+Lemma merge_loop_err : forall caps l conc merged e, conc <> [] ->
+  merge_loop caps (Some l) conc merged = Err e -> e = ENodeListEmpty.
+Proof.
+  induction caps as [|c t IH]; intros l conc merged e Hc H; cbn [merge_loop] in H; [discriminate|].
+  destruct (same_span c l).
+  - apply (IH c (conc ++ [c]) merged e); [destruct conc; discriminate|exact H].
+  - destruct conc as [|c0 cs]; [congruence|].
+    destruct (merge_caps (c0 :: cs)) as [m|e'] eqn:Em; cbn [bind] in H.
+    + apply (IH c [c] (merged ++ [m]) e); [discriminate|exact H].
+    + injection H as <-. apply (merge_caps_err c0 cs). exact Em.
+Qed.
+
+Lemma merge_loop_conc : forall caps l conc merged conc' merged', conc <> [] ->
+  merge_loop caps (Some l) conc merged = Ok (conc', merged') -> conc' <> [].
+Proof.
+  induction caps as [|c t IH]; intros l conc merged conc' merged' Hc H; cbn [merge_loop] in H.
+  - injection H as <- <-. exact Hc.
+  - destruct (same_span c l).
+    + apply (IH c (conc ++ [c]) merged conc' merged'); [destruct conc; discriminate|exact H].
+    + destruct (merge_caps conc) as [m|e']; cbn [bind] in H; [|discriminate].
+      apply (IH c [c] (merged ++ [m]) conc' merged'); [discriminate|exact H].
+Qed.
+
+Theorem merge_lang_total : forall caps e, merge_lang caps = Err e -> e = ENodeListEmpty.
+Proof.
+  intros caps e H. unfold merge_lang in H.
+  destruct caps as [|c t]; [discriminate|]. cbn [merge_loop] in H.
+  destruct (merge_loop t (Some c) [c] []) as [[conc merged]|e'] eqn:El; cbn [bind] in H.
+  - pose proof (merge_loop_conc t c [c] [] conc merged ltac:(discriminate) El) as Hc.
+    destruct conc as [|c0 cs]; [congruence|].
+    destruct (merge_caps (c0 :: cs)) as [m|e''] eqn:Em; cbn [bind] in H.
+    + destruct (merged ++ [m]); discriminate.
+    + injection H as <-. apply (merge_caps_err c0 cs). exact Em.
+  - injection H as <-. apply (merge_loop_err t c [c] []); [discriminate|exact El].
 Qed.
